@@ -401,16 +401,48 @@ def rule_loopbound(facts):
     return r
 
 
+def rule_transfirst(facts):
+    """translate(s, from, to): when a character occurs more than once in `from`, its first occurrence decides (PostgreSQL; the project's
+    own translate.slt says so). The character map is therefore filled without overwriting: through `entry(..).or_insert*`, or through an
+    `insert` that is dominated by a membership test of the same map. A bare `HashMap::insert` in the fill loop lets a later occurrence
+    replace the earlier mapping (`translate('banana','aba','xy')` = 'ynn' instead of 'yxnxnx')."""
+    r = RuleResult("C20-TRANSFIRST", "translate() fills its character map without overwriting (first occurrence in `from` wins)", floor=1)
+    recs = [x for x in facts.all_fns(["glaredb_core"], contains="string::translate::") if "string::translate::" in x["id"] and "::tests::" not in x["id"]]
+    fills = 0
+    for rec in recs:
+        fn = Fn(rec)
+        tests = [c for c in fn.calls() if "HashMap" in c.name and c.name.rsplit("::", 1)[-1] in ("contains_key", "get", "get_mut")]
+        for c in fn.calls():
+            last = c.name.rsplit("::", 1)[-1]
+            if "HashMap" in c.name and last == "entry" or "hash_map::Entry" in c.name and last.startswith("or_insert"):
+                fills += 1
+                r.functions.add(fn.id)
+                r.inst({"fn": fn.id, "line": c.line, "fill": last}, True)
+            if "HashMap" in c.name and last == "insert":
+                fills += 1
+                guarded = any(fn.dominates(t.bb, c.bb) and t.bb != c.bb for t in tests)
+                r.functions.add(fn.id)
+                r.call_sites += 1
+                r.inst({"fn": fn.id, "line": c.line, "fill": "insert", "behind_membership_test": guarded}, guarded)
+                if not guarded:
+                    r.violate(fn.id, "map-overwritten", f"the character map is filled with a plain insert at line {c.line}: a later occurrence of a character in `from` "
+                              "overwrites the mapping of its first occurrence", rec["file"], c.line)
+    if fills == 0:
+        r.missing_anchor("string::translate: no fill of the character map found")
+    return r
+
+
 def run(ctx):
     facts = ctx["facts"]
-    return [rule_idx(facts), rule_like(facts), rule_intarg(facts), rule_subguard(facts), rule_loopbound(facts)]
+    return [rule_idx(facts), rule_like(facts), rule_intarg(facts), rule_subguard(facts), rule_loopbound(facts), rule_transfirst(facts)]
 
 
 CLAIM = {
     "text": "Taint/provenance rule over the MIR of every function and closure in the string scalar-function module (sources: integer "
             "parameters and char counts; sinks: str/String slicing, split_at, truncate, drain, insert…; only value-preserving helpers "
             "propagate) plus an edge-dominance guard rule on the LIKE rewrite. Both hold or fail for all inputs by code shape; the "
-            "string values produced are outside static reach. Plus the integer-argument discipline of the string functions: an SQL integer argument is never negated raw, and is used in overflow-checked arithmetic or converted to an unsigned count only behind a comparison that makes it non-negative; every unsigned subtraction is dominated by a comparison of its own two operands. Range loops whose bound derives from an integer argument have an upper bound before them or a data-dependent exit inside.",
+            "string values produced are outside static reach. Plus the integer-argument discipline of the string functions: an SQL integer argument is never negated raw, and is used in overflow-checked arithmetic or converted to an unsigned count only behind a comparison that makes it non-negative; every unsigned subtraction is dominated by a comparison of its own two operands. Range loops whose bound derives from an integer argument have an upper bound before them or a data-dependent exit inside."
+            " Plus TRANSFIRST: translate() fills its character map without overwriting.",
     "note": "trusted: rustc MIR; the sink and transparent-call tables in rules/c20.py and rules/mir.py; byte offsets returned by std "
             "char-boundary APIs are assumed valid boundaries",
     "technique": "static analysis: MIR taint/provenance + edge-dominance guard rule (rustc_private driver)",
